@@ -40,6 +40,7 @@ def run(ctx):
     sec1_points_have_the_uncompressed_length(ctx, P)
     declared_key_material_fully_consumed(ctx, P)
     mpi_writer_refuses_what_the_reader_refuses(ctx, P)
+    mpi_constructors_normalise(ctx, P)
     s2k_specifier_length_agrees(ctx, P)
     stored_length_encoding(ctx, P)
     stored_length_checked_against_data(ctx, P)
@@ -1443,3 +1444,26 @@ def unprotected_checksum_on_every_ok_path(ctx, P):
     ctx.check(P + ':S05-18:checksum-on-every-ok-path', 'R-dom', 'for V2, V3 and V4 every successful return of PlainSecretParams::try_from_reader has compared the checksum',
               bool(cmpb) and bool(oks) and not bad, function=b.path, site=site(b, cmpb[0]) if cmpb else None, witness=next(iter(bad.values())) if bad else None,
               missing=None if not bad else 'with the version fixed to %s a path reaches Ok without the checksum comparison' % sorted(bad))
+
+
+def mpi_constructors_normalise(ctx, P):
+    """An `Mpi` holds its value without leading zero octets (the writer announces the bit size of what it holds and the reader strips
+    them): every place that builds the struct takes the octets from `strip_leading_zeros` (`from_slice`), from the reader's own
+    stripping, or is the documented raw constructor whose callers are checked separately (S05-11).  `BigUint::to_bytes_be()` of zero is
+    `[0]` - a conversion that wraps it as it is writes `00 00 00`, which reads back as the empty MPI plus a stray octet."""
+    n = 0
+    for p, r in sorted(ctx.f.bodies.items()):
+        if '::tests::' in p or r.get('derived'):
+            continue
+        b = ctx.wrap(r)
+        for i, k, st in b.stmts(lambda st: st['r']['k'] == 'agg' and (st['r'].get('adt') or '') == 'types::mpi::Mpi'):
+            n += 1
+            if p.endswith('Mpi::from_raw'):
+                ctx.ok('%s:S05-22:mpi-normalised:%s' % (P, p), 'R-who', 'Mpi::from_raw is the documented raw constructor (its callers: S05-11)', function=p)
+                continue
+            og = b.operand_origins(st['r']['o'][0]) if st['r']['o'] else set()
+            ok = has_origin(og, r'call:.*(strip_leading_zeros|Mpi::from_slice|leading_zeros_offset|Buf::advance)$')
+            ctx.check('%s:S05-22:mpi-normalised:%s' % (P, p), 'R-who', '%s builds an Mpi from octets without leading zeros' % p.split(' as ')[0].lstrip('<').split('::')[-1] if False else '%s builds an Mpi from stripped octets' % p,
+                      ok, function=p, site=site(b, i),
+                      missing=None if ok else 'the octets come from %s without passing strip_leading_zeros: a value of zero is held as [0] and written as `00 00 00`' % sorted(x[5:] for x in og if x.startswith('call:'))[:2])
+    ctx.floor(P + ':S05-22:floor', 'constructions of the Mpi struct', n, 3)
